@@ -26,7 +26,13 @@ Policies == <<
   [id |-> "p4", policy |-> Pol("permit", ScopeEq(U("b")), <<When(Eq(Var("resource"), VV(G("g"))))>>)],
   [id |-> "p5", policy |-> Pol("permit", ScopeAll, <<When(Eq(Var("context"), VV(VRec([k |-> VInt(2), k2 |-> VInt(2)]))))>>)],
   [id |-> "p6", policy |-> Pol("forbid", ScopeAll, <<When([op |-> "contains", l |-> Acc(Var("context"), "ss"), r |-> VV(VInt(2))])>>)],
-  [id |-> "p7", policy |-> Pol("permit", ScopeAll, <<When([op |-> "add", l |-> Acc(Var("context"), "k"), r |-> VV(VStr(<<97>>))])>>)]
+  [id |-> "p7", policy |-> Pol("permit", ScopeAll, <<When([op |-> "add", l |-> Acc(Var("context"), "k"), r |-> VV(VStr(<<97>>))])>>)],
+  \* conditions that relate two request parts (two variables decided at different recursion levels)
+  [id |-> "p8", policy |-> Pol("permit", ScopeAll, <<When([op |-> "and", l |-> [op |-> "has", a |-> Var("context"), attr |-> "owner"],
+                                                                   r |-> Eq(Var("principal"), Acc(Var("context"), "owner"))])>>)],
+  [id |-> "p9", policy |-> Pol("forbid", ScopeAll, <<When([op |-> "and", l |-> [op |-> "has", a |-> Var("context"), attr |-> "ss"],
+                                                                   r |-> [op |-> "contains", l |-> Acc(Var("context"), "ss"), r |-> Var("resource")]])>>)],
+  [id |-> "p10", policy |-> Pol("permit", ScopeAll, <<When([op |-> "in", l |-> Var("principal"), r |-> Var("resource")])>>)]
 >>
 
 B == Env1W
@@ -51,12 +57,22 @@ Templates == <<
   [t |-> [B EXCEPT !.c = Ctx([k |-> Unk("x")])], vars |-> <<>>],                                             \* unbound
   [t |-> B, vars |-> <<[key |-> "x", values |-> Ints(<<1>>)]>>],                                               \* unused
   [t |-> B, vars |-> <<>>],                                                                                   \* no variables
+  [t |-> [B EXCEPT !.p = Unk("x"), !.c = Ctx([owner |-> Unk("y")])],
+   vars |-> <<[key |-> "x", values |-> <<U("a"), U("b")>>], [key |-> "y", values |-> <<U("b"), U("a"), G("g")>>]>>],
+  [t |-> [B EXCEPT !.p = Unk("x"), !.c = Ctx([owner |-> Unk("y")])],
+   vars |-> <<[key |-> "x", values |-> <<U("a"), U("b"), U("zz")>>], [key |-> "y", values |-> <<U("b"), U("a")>>]>>],
+  [t |-> [B EXCEPT !.r = Unk("x"), !.c = Ctx([ss |-> [k |-> "set", els |-> <<Unk("y"), U("zz")>>]])],
+   vars |-> <<[key |-> "x", values |-> <<G("g"), U("b"), U("a")>>], [key |-> "y", values |-> <<U("b"), U("a")>>]>>],
+  [t |-> [B EXCEPT !.r = Unk("x"), !.c = Ctx([ss |-> [k |-> "set", els |-> <<Unk("y"), U("zz")>>]])],
+   vars |-> <<[key |-> "x", values |-> <<G("g"), U("b")>>], [key |-> "y", values |-> <<U("b"), U("a"), G("g")>>]>>],
+  [t |-> [B EXCEPT !.p = Unk("x"), !.r = Unk("y")],
+   vars |-> <<[key |-> "x", values |-> <<U("a"), U("b")>>], [key |-> "y", values |-> <<G("g"), G("top"), U("b")>>]>>],
   [t |-> [B EXCEPT !.p = Unk("x"), !.a = Unk("y"), !.c = Ctx([k |-> Unk("z"), k2 |-> Unk("z")])],
    vars |-> <<[key |-> "x", values |-> <<U("a"), U("b")>>], [key |-> "y", values |-> <<A("view")>>],
               [key |-> "z", values |-> Ints(<<1, 2, 2>>)]>>]
 >>
 
-PolicySets == << <<1, 2, 3, 4, 5, 6, 7>>, <<1, 3>>, <<2, 5, 6>>, <<>> >>
+PolicySets == << <<1, 2, 3, 4, 5, 6, 7, 8, 9, 10>>, <<1, 3>>, <<2, 5, 6>>, <<>>, <<8>>, <<9, 3>>, <<10, 4>> >>
 PolsOf(s) == [i \in DOMAIN PolicySets[s] |-> Policies[PolicySets[s][i]]]
 
 VARIABLES ti, si, fault, done
